@@ -1100,3 +1100,37 @@ pub fn c03_impostor_messages() -> Phase {
         wall_cap_s: 0,
     }
 }
+
+/// Extreme widths (the ends of the usize range, the 2^31 / 2^32 / 2^63 boundaries, catalogue widths plus 2^32)
+/// for the empty array, one- and two-pixel arrays, and a valid 10x10 symbol's 100 pixels.
+pub fn extreme_widths(prop: &'static str) -> Phase {
+    let n = crate::trace::N_HUGE_WIDTHS as u64;
+    let total = n * 4;
+    let make = move |_ctx: &Ctx, i: u64| -> Trace {
+        let code = (i % n) as u32;
+        let len = match i / n {
+            0 => 0usize,
+            1 => 1,
+            2 => 2,
+            _ => 100,
+        };
+        let bits: Vec<bool> = if len == 100 {
+            crate::catalogue::fixed_template(&SIZES[0]).iter().map(|t| t.unwrap_or(false)).collect()
+        } else {
+            vec![true; len]
+        };
+        Trace {
+            prop: prop.into(),
+            producer: Producer::Stream { data: vec![] },
+            faults: vec![
+                Fault::new("geo_replace", Op::GeoReplace { bits, w: 10 }),
+                Fault::new("geo_width_skew", Op::GeoWidthHuge { code }),
+            ],
+        }
+    };
+    Phase {
+        source: Source::Sweep { name: "sweep_extreme_widths".into(), prop: prop.into(), make: Box::new(make) },
+        runs: total,
+        wall_cap_s: 0,
+    }
+}
